@@ -20,8 +20,9 @@ SIZES = {
     "plist": (150, 2000),
     "loaded": (250, 3000),
     "records": (200, 2500),
+    "mixedkeys": (250, 3000),
 }
-DEFAULT_KINDS = ["small", "random", "skewed", "mset", "msetdup", "xml", "huge", "csv", "pyobj", "plist", "loaded", "records"]
+DEFAULT_KINDS = ["small", "random", "skewed", "mset", "msetdup", "xml", "huge", "csv", "pyobj", "plist", "loaded", "records", "mixedkeys"]
 
 
 def innermost_class(ev, step):
@@ -73,6 +74,8 @@ def run_script_property(prop, level, kinds=None, extra_rule="", mc=True, signatu
             cls = innermost_class(tr["ev"], v["step"])
             sig = {"clause": v["clause"], "edit": cls, "strategy": tr["O"]["strategy"], "lists": tr["O"]["lists"],
                    "kind": c[0]}
+            if c[0] == "msetdup":
+                sig["collide"] = corpus.msetdup_collide(c, salt)
             if signature_extra:
                 sig.update(signature_extra(tr, v, cls))
             msg = "%s: clause '%s' broken at event %d (%s) in a %s frame; options %s; from %s to %s" % (
